@@ -21,6 +21,8 @@
                                                    -> bak] ; open(out, trunc) ; write+ ; close ;
                                                    stat bak ; [unlink bak]
      Crash    : enabled in every state of a live process; memory is lost, files stay
+                (the graceful abort after SIGINT -- save at the next checkpoint, then KeyboardInterrupt --
+                is the special case of a Crash right after a completed save)
      Resume(f): resume_from_checkpoint(filename=f): load f, Simulation.from_saved_checkpoint
                 (loaded_from_checkpoint = True), fix_output_filenames again, resume_run
      Restart  : nothing loadable on disk: the same job is started again with overwrite_output.
